@@ -84,7 +84,7 @@ pub fn gen_user_sig(t: &mut Tape) -> (String, usize) {
 impl Property for C15 {
     fn id(&self) -> &'static str { "C15" }
     fn rule(&self) -> &'static str {
-        "strings of 0..300 characters over ASCII (incl. quotes, backslashes, controls), half/full-width kana, kanji and symbols, biased to characters whose Shift-JIS trail byte is 0x5C / 0x7C / 0x40 / 0x7E / 0x80 / 0xFC or whose bytes meet a mask byte, and to lengths around block and buffer boundaries; used (a) as arguments of every built-in MSG / END instruction with a string parameter in TH06..TH18 (incl. masked and furigana-quirk encodings; up to 5 consecutive strings per script), (b) under user signatures z/m/p with bs= / len= / nulless / mask= / furibug given in a mapfile, (c) as ANM paths, STD stage / BGM / ANM names and mission text lines: compile Ok => decompile Ok and every string comes back identical (compared with the generator's own string, in order); a string with an unencodable character must be rejected; a rejection needs an error diagnostic and either an unencodable character or an encoded length at the context's capacity. non-trivial = compile Ok with at least one multi-byte or special character"
+        "strings of 0..300 characters over ASCII (incl. quotes, backslashes, controls), half/full-width kana, kanji and symbols, biased to characters whose Shift-JIS trail byte is 0x5C / 0x7C / 0x40 / 0x7E / 0x80 / 0xFC or whose bytes meet a mask byte, and to lengths around block and buffer boundaries; used (a) as arguments of every built-in MSG / END instruction with a string parameter in TH06..TH18 (incl. masked and furigana-quirk encodings; up to 5 consecutive strings per script), (b) under user signatures z/m/p with bs= / len= / nulless / mask= / furibug given in a mapfile, (c) as ANM paths (1..3 entries, path and path_2 per entry), STD stage / BGM / ANM names and mission text lines: compile Ok => decompile Ok and every string comes back identical (compared with the generator's own string, in order); a string with an unencodable character must be rejected; a rejection needs an error diagnostic and either an unencodable character or an encoded length at the context's capacity. non-trivial = compile Ok with at least one multi-byte or special character"
     }
     fn tape_len(&self, tier: Tier) -> usize { tier.pick(400, 500) }
     fn cases(&self, tier: Tier) -> u32 { tier.pick(200_000, 4_000_000) }
